@@ -245,6 +245,8 @@ def render_grammar(gi, case, with_cases=True, lite=False, ctxmix=False, customle
             lit = cstr(bytes.fromhex(inp["hex"]))
             opts = "parse_options{}.set_skip_whitespace(%s).set_skip_newline(%s)" % ("true" if inp["ws"] else "false", "true" if inp["nl"] else "false")
             out.append("struct c%d { static constexpr auto run() { utils::no_stream ns; return p.parse(%s, cstring_buffer(%s), ns); } };" % (k, opts, lit))
+            if k < 2:      # the same parse with the trace switched on: at compile time the only possible stream is no_stream, the result must not change (C16/C07)
+                out.append("struct cv%d { static constexpr auto run() { utils::no_stream ns; return p.parse(%s.set_verbose(), cstring_buffer(%s), ns); } };" % (k, opts, lit))
         out.append("void run_all() {")
         out.append("  auto p2 = new parser(G%d_ARGS);   // the same parser constructed at run time" % gi)
         for k, inp in enumerate(case["inputs"]):
@@ -252,6 +254,8 @@ def render_grammar(gi, case, with_cases=True, lite=False, ctxmix=False, customle
             n = len(bytes.fromhex(inp["hex"]))
             opts = "parse_options{}.set_skip_whitespace(%s).set_skip_newline(%s)" % ("true" if inp["ws"] else "false", "true" if inp["nl"] else "false")
             out.append('  { std::printf("CASE %s %d ce=%%d:%%llu", hh::probe<c%d>(0), (unsigned long long)hh::cvalue<c%d>(0)); parse_options o = %s; static const char lit[] = %s;' % (ns, k, k, k, opts, lit))
+            if k < 2:
+                out.append('    std::printf(" cev=%%d:%%llu", hh::probe<cv%d>(0), (unsigned long long)hh::cvalue<cv%d>(0));' % (k, k))
             out.append('    hh::rt("cs", p, o, cstring_buffer(lit)); hh::rt("sb", p, o, string_buffer(std::string(lit, %d))); hh::rt("sv", p, o, string_view_buffer(std::string_view(lit, %d)));' % (n, n))
             out.append('    { static const std::string big = std::string(lit, %d) + " \\n\\t  ;;zz"; hh::rt("svs", p, o, string_view_buffer(std::string_view(big.data(), %d))); }' % (n, n))
             out.append('    { auto* b0 = new string_buffer(std::string(lit, %d)); auto* b1 = new string_buffer(std::move(*b0)); string_buffer b2(*b1); *b0 = string_buffer("#gone#"); *b1 = string_buffer("#gone as well, and long enough for the heap#"); delete b0; delete b1; hh::rt("sbc", p, o, b2); }' % n)
@@ -443,21 +447,23 @@ def big_grammar_source(K, texts):
              "stmt(error, ';') >= ftors::val(-1L)",
              "expr(term)",
              "expr(expr, '+', term) >= [](long a, skip, long b) { return (a + b) % 1000; }",
+             "expr(expr, '<', term) >= [](long a, skip, long b) { return long(a < b); }",        # a term whose id is a prefix of the error symbol's and the eof symbol's ids
              "term(num) >= [](std::string_view sv) { long v = 0; for (char c : sv) v = (v * 10 + (c - '0')) % 1000; return v; }",
              "term('(', expr, ')') >= ftors::_e2",
              "term('(', error, ')') >= ftors::val(995L)"]        # an error rule deep inside: its error-shift targets are discovered late (high state numbers)
     for i in range(K):
         rules.append('stmt("%s", expr, E%d, \';\') >= [](skip, long v, skip, skip) { return %dL + v; }' % (kws[i], i, i * 1000))
         rules.append('stmt("%s", error, E%d, \';\') >= ftors::val(%dL)' % (kws[i], i, -(i + 2)))      # an error rule in every context: error-shift targets spread over the state numbers
-    terms = ["num", "'+'", "'('", "')'", "';'"] + ['"%s"' % k for k in kws] + ["E%d" % i for i in range(K)]
+    terms = ["num", "'+'", "'<'", "'('", "')'", "';'"] + ['"%s"' % k for k in kws] + ["E%d" % i for i in range(K)]
     parts.append("inline const auto& the_parser() { static const auto* p = new parser(prog, terms(%s), nterms(prog, stmt, expr, term), rules(\n  %s), use_generated_lexer{}, lim{}); return *p; }"
                  % (", ".join(terms), ",\n  ".join(rules)))
     parts.append("}")
     body = ['int main() { hh::big_stack([] { try { const auto& p = big::the_parser(); std::ostringstream dg; p.write_diag_str(dg); std::string d = dg.str(); size_t pos = d.find("Number of states: "); std::printf("BIGINFO states=%s\\n", pos == std::string::npos ? "?" : d.substr(pos + 18, d.find("(", pos) - pos - 18).c_str());']
+    body.append('  auto one = [&](int k, auto&& buf, const char* tag) { try { std::ostringstream os; auto r = p.parse(parse_options{}, buf, os); unsigned long long h = 0x51ed; size_t n = 0; if (r.has_value()) { n = r.value().size(); for (long v : r.value()) h = hh::hcomb(h, (unsigned long long)(v + 7)); }'
+                ' size_t ne = 0; { std::string e = os.str(); for (size_t q = e.find("Syntax error"); q != std::string::npos; q = e.find("Syntax error", q + 1)) ++ne; } std::printf("%s %d acc=%d n=%zu h=%llu errs=%zu\\n", tag, k, r.has_value() ? 1 : 0, n, h, ne); } catch (const std::exception& e) { std::printf("%sX %d %s\\n", tag, k, e.what()); } };')
     for k, t in enumerate(texts):
         b = t["text"].encode()
-        body.append('  try { static const char lit[] = %s; std::ostringstream os; auto r = p.parse(parse_options{}, string_view_buffer(std::string_view(lit, %d)), os); unsigned long long h = 0x51ed; size_t n = 0; if (r.has_value()) { n = r.value().size(); for (long v : r.value()) h = hh::hcomb(h, (unsigned long long)(v + 7)); }'
-                    ' size_t ne = 0; { std::string e = os.str(); for (size_t q = e.find("Syntax error"); q != std::string::npos; q = e.find("Syntax error", q + 1)) ++ne; } std::printf("BIG %d acc=%%d n=%%zu h=%%llu errs=%%zu\\n", r.has_value() ? 1 : 0, n, h, ne); } catch (const std::exception& e) { std::printf("BIGX %d %%s\\n", e.what()); }' % (cstr(b), len(b), k, k))
+        body.append('  { static const char lit[] = %s; one(%d, string_view_buffer(std::string_view(lit, %d)), "BIG"); one(%d, string_buffer(std::string(lit, %d)), "BIGS"); one(%d, cstring_buffer(lit), "BIGC"); }' % (cstr(b), k, len(b), k, len(b), k))
     body.append('  } catch (const std::exception& e) { std::printf("BIGEXC %s\\n", e.what()); } }); return 0; }')
     # the constructor's frame holds the whole state analyzer: with these limits it needs more than the prelude's 512 MB of (virtual) stack
     return "\n".join(parts + body).replace("size_t(1) << 29", "size_t(1) << 32"), kws, ends
@@ -474,7 +480,7 @@ def big_tables(kws, ends):
     K = len(kws)
     # rule = (lhs, rhs tuple, semantic tag)
     R = [("S'", ("prog",), None), ("prog", (), ("list0",)), ("prog", ("prog", "stmt"), ("append",)), ("stmt", ("error", ";"), ("val", -1)),
-         ("expr", ("term",), ("e", 0)), ("expr", ("expr", "+", "term"), ("add",)), ("term", ("num",), ("num",)),
+         ("expr", ("term",), ("e", 0)), ("expr", ("expr", "+", "term"), ("add",)), ("expr", ("expr", "<", "term"), ("lt",)), ("term", ("num",), ("num",)),
          ("term", ("(", "expr", ")"), ("e", 1)), ("term", ("(", "error", ")"), ("val", 995))]
     for i in range(K):
         R.append(("stmt", (kws[i], "expr", "E%d" % i, ";"), ("ctx", i)))
@@ -556,7 +562,7 @@ def big_eval(text, kws, ends):
     import re
     toks = []
     pos = 0
-    tok_re = re.compile(r"\s*(kw\d\d|e\d\d|[A-Z]|[0-9]+|[+();])")
+    tok_re = re.compile(r"\s*(kw\d\d|e\d\d|[A-Z]|[0-9]+|[+<();])")
     while pos < len(text):
         m = tok_re.match(text, pos)
         if not m:
@@ -576,11 +582,13 @@ def big_eval(text, kws, ends):
         return t
     toks.append("$")
     st = [0]; vs = []; p = 0; errs = 0; recovering = False; consuming = False
-    FAIL = lambda: {"acc": 0, "n": 0, "h": 0x51ed, "errs": errs}
+    depth = [1]
+    FAIL = lambda: {"acc": 0, "n": 0, "h": 0x51ed, "errs": errs, "depth": depth[0]}
     steps = 0
     while True:
         steps += 1
         if steps > 200000: raise RuntimeError("big_eval: runaway")
+        if len(st) > depth[0]: depth[0] = len(st)
         la = "error" if recovering else sym(toks[p])
         act = action[st[-1]].get(la)
         if act is None:
@@ -610,6 +618,7 @@ def big_eval(text, kws, ends):
             elif tag[0] == "val": v = tag[1]
             elif tag[0] == "e": v = args[tag[1]]
             elif tag[0] == "add": v = (args[0] + args[2]) % 1000
+            elif tag[0] == "lt": v = 1 if args[0] < args[2] else 0
             elif tag[0] == "num":
                 v = 0
                 for c in args[0]: v = (v * 10 + int(c)) % 1000
@@ -619,7 +628,7 @@ def big_eval(text, kws, ends):
             out = vs[0]
             h = 0x51ed
             for v in out: h = hcomb(h, (v + 7) & M)
-            return {"acc": 1, "n": len(out), "h": h, "errs": errs}
+            return {"acc": 1, "n": len(out), "h": h, "errs": errs, "depth": depth[0]}
 
 
 def big_texts(seed, n, K, kws, ends):
@@ -632,7 +641,7 @@ def big_texts(seed, n, K, kws, ends):
                 ps += ["("] + expr(d + 1) + [")"]
             else:
                 ps.append(str(rnd.randint(0, 9999)))
-            ps.append("+")
+            ps.append("+" if rnd.random() < 0.8 else "<")
         return ps[:-1]
     out = []
     for _ in range(n):
@@ -684,10 +693,14 @@ def run_big(pid, tier, seed, work, viol_dir):
         labels["big-grammar:lr1-states"] = int(info[0].split("=")[1])
     except Exception:
         pass
-    got = {}
+    got = {}; gotS = {}; gotC = {}; threwS = {}; threwC = {}
     for ln in out.splitlines():
-        if ln.startswith("BIG "):
-            w = ln.split(); got[int(w[1])] = {f.split("=")[0]: int(f.split("=")[1]) for f in w[2:]}
+        for tag, dst in (("BIG ", got), ("BIGS ", gotS), ("BIGC ", gotC)):
+            if ln.startswith(tag):
+                w = ln.split(); dst[int(w[1])] = {f.split("=")[0]: int(f.split("=")[1]) for f in w[2:]}
+        for tag, dst in (("BIGSX ", threwS), ("BIGCX ", threwC)):
+            if ln.startswith(tag):
+                w = ln.split(" ", 2); dst[int(w[1])] = w[2] if len(w) > 2 else ""
     threw = {}
     for ln in out.splitlines():
         if ln.startswith("BIGX "):
@@ -705,6 +718,16 @@ def run_big(pid, tier, seed, work, viol_dir):
             what = "big grammar: values kept/discarded by recovery (or computed by the rules) differ from the independent evaluation"
         elif d["errs"] != want["errs"]:
             what = "big grammar: %d syntax errors reported, %d expected" % (d["errs"], want["errs"])
+        if not what:
+            # the other buffer kinds must give the same result; the fixed stacks of cstring_buffer<N> hold N + 1 empty rule + 1 entries (F11 scope: deeper is excluded)
+            for kind, gk, tk in (("string_buffer", gotS, threwS), ("cstring_buffer", gotC, threwC)):
+                if k in tk:
+                    if kind == "cstring_buffer" and "out of range" in tk[k] and want["depth"] > len(t["text"]) + 3:
+                        labels["big-grammar:excluded-F11"] = labels.get("big-grammar:excluded-F11", 0) + 1
+                        continue
+                    what = "big grammar: parse through %s threw '%s' while string_view_buffer gave a result" % (kind, tk[k][:100]); break
+                if gk.get(k) != d:
+                    what = "big grammar: %s and string_view_buffer give different results for the same text" % kind; break
         if what:
             vp = os.path.join(viol_dir, "%s_big_%s.json" % (pid, hashlib.sha1(t["text"].encode()).hexdigest()[:10]))
             json.dump({"check": pid, "kind": "programbig", "compiler": cxx, "what": what, "observed": d, "expected": want, "texts": [t], "K": K, "source": big_grammar_source(K, [t])[0]}, open(vp, "w"))
@@ -904,7 +927,7 @@ def parse_case_lines(out):
     return res
 
 
-def emit_cases(seed, n, work, spelling=True, only_class=None, named_terms=False, always_spelled=False):
+def emit_cases(seed, n, work, spelling=True, only_class=None, named_terms=False, always_spelled=False, same_names=False):
     ok, eg, log = BUILD.ensure_emitter("e_grammar", REPO)
     if not ok:
         return None, log
@@ -918,6 +941,8 @@ def emit_cases(seed, n, work, spelling=True, only_class=None, named_terms=False,
         env["EMIT_NAMED_TERMS"] = "1"
     if always_spelled:
         env["EMIT_ALWAYS_SPELLED"] = "1"
+    if same_names:
+        env["EMIT_SAME_NAMES"] = "1"; env["EMIT_NAMED_TERMS"] = "1"
     if os.environ.get("_EMIT_PID") == "C18":
         env["EMIT_LONG_NAMES"] = "1"
     if os.environ.get("_EMIT_PID") == "C10":
@@ -956,7 +981,7 @@ def run(pid, tier, seed, work, viol_dir, known_ids=()):
               "C01": {"quick": 16, "thorough": 160}, "C02": {"quick": 16, "thorough": 160}, "C05": {"quick": 16, "thorough": 160}, "C09": {"quick": 16, "thorough": 160}, "C18": {"quick": 12, "thorough": 120}, "C10": {"quick": 12, "thorough": 120}, "C11": {"quick": 12, "thorough": 120}, "C16": {"quick": 12, "thorough": 120}}[pid][tier]
     os.environ["_EMIT_PID"] = pid
     if pid != "C03":
-      cases, log = emit_cases((seed + {"C01": 101, "C02": 202, "C05": 505, "C09": 909, "C18": 1818, "C10": 1010, "C11": 1111, "C16": 1616}.get(pid, 0)) % 0x7FFFFFFF or 1, ncases, work, spelling=(pid in ("C07", "C01", "C02", "C05", "C09", "C18", "C10", "C11", "C16")), only_class=(1 if pid == "C05" else None), named_terms=(pid == "C09"), always_spelled=(pid in ("C18", "C10", "C11", "C16")))
+      cases, log = emit_cases((seed + {"C01": 101, "C02": 202, "C05": 505, "C09": 909, "C18": 1818, "C10": 1010, "C11": 1111, "C16": 1616}.get(pid, 0)) % 0x7FFFFFFF or 1, ncases, work, spelling=(pid in ("C07", "C01", "C02", "C05", "C09", "C18", "C10", "C11", "C16")), only_class=(1 if pid == "C05" else None), named_terms=(pid == "C09"), always_spelled=(pid in ("C18", "C10", "C11", "C16")), same_names=(pid in ("C01", "C02")))
     if cases is None:
         print("HARNESS-BUILD-FAILED engine=e_grammar (emit)")
         print(log)
@@ -976,168 +1001,180 @@ def run(pid, tier, seed, work, viol_dir, known_ids=()):
     VERBOSE_RUNS = pid == "C16"
     ctxmix = pid == "C05"
     customlex = pid == "C18"
-    if pid == "C07" or lite:
-        per_tu = 1
-        groups = [list(range(i, min(i + per_tu, len(cases)))) for i in range(0, len(cases), per_tu)]
-        jobs = []
-        for gi, idxs in enumerate(groups):
-            src = os.path.join(work, "prog_%d.cpp" % gi)
-            open(src, "w").write(render_program(cases, idxs, lite, ctxmix, customlex))
-            for cxx in (("clang++",) if (lite and gi % 2) else ("g++",) if lite else ("g++", "clang++")):
-                jobs.append((gi, idxs, src, cxx))
-        with ThreadPoolExecutor(max_workers=16) as ex:
-            results = list(ex.map(lambda j: (j, compile_and_run(j[2], j[3])), jobs))
-        for (gi, idxs, src, cxx), res in results:
-            if not res["compiled"]:
-                if res.get("timeout"):
-                    notes.append("compile of %s with %s hit the time ceiling (inconclusive)" % (os.path.basename(src), cxx))
-                    continue
-                vp = os.path.join(viol_dir, "%s_compile_%s_%s.json" % (pid, cxx.replace("+", "x"), hashlib.sha1(open(src, "rb").read()).hexdigest()[:10]))
-                json.dump({"check": pid, "kind": "program", "compiler": cxx, "source": open(src).read(), "what": "generated program does not compile", "log": res["log"], "cases": [cases[i] for i in idxs], "idxs": idxs}, open(vp, "w"))
-                errs = [l for l in res["log"].splitlines() if "error" in l][:1]
-                violations.append(("program that parses at compile time does not compile with %s: %s" % (cxx, errs[0][:200] if errs else ""), vp))
-                continue
-            got = parse_case_lines(res["out"])
-            for gidx in idxs:
-                case = cases[gidx]
-                for k, inp in enumerate(case["inputs"]):
-                    evaluations += 1
-                    key = ("g%d" % gidx, k)
-                    want_acc = 1 if inp["accept"] else 0
-                    want_val = inp["value"] if inp["accept"] else "0"
-                    want_msg = inp["messages_hex"]
-                    d = got.get(key)
-                    what = None
-                    # known finding F11: cstring_buffer<N> selects fixed stacks of N + EmptyRulesCount + 1 entries
-                    empty_rules = sum(1 for r in case["grammar"]["rules"] if not r["rhs"])
-                    f11 = "F11" in known_ids and inp.get("max_depth", 0) > len(bytes.fromhex(inp["hex"])) + 1 + empty_rules + 1
-                    if d is None:
-                        what = "program produced no result line (crashed?) rc=%s" % res.get("rc")
-                    elif f11 and d["ce"].split(":")[0] == "-1" and d["cs"].startswith("EXC") and d["r_cs"].startswith("EXC") and all(
-                            d[tag].split(":")[0] == str(want_acc) and (not want_acc or d[tag].split(":")[1] == want_val) and d[tag].split(":")[2] == want_msg for tag in ("sb", "sv", "svs", "sbc", "r_sb", "r_sv")):
-                        excluded["F11"] = excluded.get("F11", 0) + 1
-                        continue
-                    elif lite:
-                        for tag in ("sb", "sv", "svs"):
-                            a, v, m = d[tag].split(":")
-                            if a == "EXC":
-                                what = "run-time parse (%s) threw: %s (%s)" % (tag, bytes.fromhex(m).decode("utf-8", "replace"), cxx)
-                            elif int(a) != want_acc:
-                                what = ("a derivable input was rejected" if want_acc else "an underivable input was accepted") + " by a parser written in the DSL (%s, %s)" % (tag, cxx)
-                            elif pid == "C02" and want_acc and v != want_val:
-                                what = "result differs from the bottom-up evaluation of the derivation tree (%s, %s)" % (tag, cxx)
-                            elif pid == "C05" and want_acc and v != want_val:
-                                what = "expression grouped against the documented precedence/associativity rules in a parser written in the DSL (%s, %s)" % (tag, cxx)
-                            elif pid == "C09" and m != want_msg:
-                                what = "error report differs from the reference (%s, %s)" % (tag, cxx)
-                            elif pid == "C16" and tag in ("sb", "sv"):
-                                what = check_verbose(d, tag, a, v, m, inp, cxx)
-                            elif pid == "C10" and m != want_msg:
-                                what = "a position in an error message is not the true line/column (%s, %s)" % (tag, cxx)
-                            elif pid == "C10" and d.get("p" + tag) != inp.get("posdigest"):
-                                what = "a term value handed to a rule functor does not carry the true line/column of its first character (digest over all functor calls; get_sp() and get_line()/get_column(); %s, %s)" % (tag, cxx)
-                            elif pid == "C18" and ((want_acc and v != want_val) or m != want_msg):
-                                what = "a parser over custom terms with a hand-written longest-match lexer (use_lexer) gives %s than the reference gives for the generated lexer (%s, %s)" % ("another value" if (want_acc and v != want_val) else "other messages", tag, cxx)
-                            if what:
-                                break
-                    else:
-                        ce = d["ce"].split(":")
-                        if ce[0] == "-1":
-                            what = "parsing this input during constant evaluation is not a constant expression (%s)" % cxx
-                        elif int(ce[0]) != want_acc or (want_acc and ce[1] != want_val):
-                            what = "compile-time result differs from the reference (%s)" % cxx
-                        else:
-                            for tag in ("cs", "sb", "sv", "svs", "sbc", "r_cs", "r_sb", "r_sv"):
-                                a, v, m = d[tag].split(":")
-                                if a == "EXC":
-                                    what = "run-time parse (%s) threw: %s (%s)" % (tag, bytes.fromhex(m).decode("utf-8", "replace"), cxx)
-                                    break
-                                if int(a) != want_acc or (want_acc and v != want_val):
-                                    what = "run-time result (%s) differs from the compile-time result / reference (%s)" % (tag, cxx)
-                                    break
-                                if m != want_msg:
-                                    what = "run-time messages (%s) differ from the reference (%s)" % (tag, cxx)
-                                    break
-                    if what:
-                        vp = os.path.join(viol_dir, "%s_%s.json" % (pid, hashlib.sha1((json.dumps(case["grammar"]) + inp["hex"] + cxx).encode()).hexdigest()[:12]))
-                        one = dict(case)
-                        one["inputs"] = [inp]
-                        json.dump({"check": pid, "kind": "program", "lite": lite, "compiler": cxx, "what": what, "observed": d, "cases": [one], "idxs": [0], "source": render_program([one], [0], lite, ctxmix, customlex)}, open(vp, "w"))
-                        violations.append((what, vp))
-                        continue
-                    ntoks = inp.get("tokens", 0)
-                    if (not inp["accept"]) or ntoks >= 5:
-                        nontrivial.add((case["grammar"]["text"], inp["hex"], inp["ws"], inp["nl"]))
-                        lab("kind:" + inp["kind"])
-                    lab("compiler:" + cxx)
-                if pid == "C11":
-                    evaluations += 1
-                    dline = [ln for ln in res["out"].splitlines() if ln.startswith("DIAG g%d " % gidx)]
-                    what11 = None
-                    if not dline:
-                        what11 = "program printed no diagnostic text (crashed?)"
-                    else:
-                        text = bytes.fromhex(dline[0].split()[2]).decode("latin-1")
-                        what11 = check_diag_text(text, case)
-                    if what11:
-                        vp = os.path.join(viol_dir, "%s_diag_%s.json" % (pid, hashlib.sha1((json.dumps(case["grammar"]) + cxx).encode()).hexdigest()[:12]))
-                        one = dict(case); one["inputs"] = case["inputs"][:1]
-                        json.dump({"check": pid, "kind": "program", "lite": lite, "compiler": cxx, "what": what11 + " (%s)" % cxx, "cases": [one], "idxs": [0], "source": render_program([one], [0], lite, ctxmix, customlex)}, open(vp, "w"))
-                        violations.append((what11 + " (%s)" % cxx, vp))
-                    else:
-                        nontrivial.add(("diag", case["grammar"]["text"], cxx))
-                lab("class:" + case["class"])
-                if case.get("spelling"):
-                    lab("spelled-terms")
-                    for sp in case["spelling"]:
-                        lab("term-kind:" + {"c": "char", "s": "string", "r": "regex(named)", "R": "regex(unnamed)", "t": "typed(char)", "T": "typed(named regex)"}[sp["kind"]])
-        for case in cases[:3]:
-            samples.append({"grammar": case["grammar"]["text"], "class": case["class"], "inputs": [i["text"] for i in case["inputs"]][:8]})
-        if pid == "C07":
-            # results that KEEP views into the caller's buffer: the same agreement (constant evaluation / three run-time buffers / two overloads), plus
-            # "the views point into the caller's buffer and read the right text"
-            texts = gen_c07v_texts(seed, {"quick": 24, "thorough": 200}[tier])
-            vsrc = os.path.join(work, "views.cpp")
-            open(vsrc, "w").write(render_c07v(texts))
-            for cxx in ("g++", "clang++"):
-                res = compile_and_run(vsrc, cxx)
-                if not res["compiled"]:
-                    if res.get("timeout"):
-                        notes.append("compile of views.cpp with %s hit the time ceiling (inconclusive)" % cxx)
-                        continue
-                    vp = os.path.join(viol_dir, "C07_compile_views_%s.json" % cxx.replace("+", "x"))
-                    json.dump({"check": pid, "kind": "program07v", "compiler": cxx, "source": open(vsrc).read(), "what": "generated program does not compile", "log": res["log"], "texts": texts}, open(vp, "w"))
-                    errs = [l for l in res["log"].splitlines() if "error" in l][:1]
-                    violations.append(("a program whose parse result keeps string_view lexemes of the caller's buffer does not compile with %s: %s" % (cxx, errs[0][:200] if errs else ""), vp))
-                    continue
-                got = {}
-                for ln in res["out"].splitlines():
-                    if ln.startswith("VIEW "):
-                        w = ln.split()
-                        got[int(w[1])] = {f.split("=")[0]: int(f.split("=")[1]) for f in w[2:]}
-                for k, t in enumerate(texts):
-                    evaluations += 1
-                    want = 2 if t["ok"] else 0
-                    d = got.get(k)
-                    what = None
-                    if d is None:
-                        what = "program produced no result line (crashed?) rc=%s" % res.get("rc")
-                    elif d["ce"] == -1:
-                        what = "parsing a static cstring_buffer and reading the lexeme views the result keeps is not a constant expression (%s)" % cxx
-                    else:
-                        for tag, name in (("ce", "constant evaluation"), ("cs", "cstring_buffer"), ("sb", "string_buffer"), ("sv", "string_view_buffer"), ("cs0", "parse(cstring_buffer)"), ("sb0", "parse(string_buffer)")):
-                            if d[tag] != want:
-                                what = "%s: %s (%s)" % (name, {0: "a text of the language was rejected", 1: "the lexeme views kept by the result do not point into the caller's buffer / read other text", 2: "a text outside the language was accepted", 3: "parse threw"}[d[tag]], cxx)
-                                break
-                    if what:
-                        vp = os.path.join(viol_dir, "C07_views_%s_%s.json" % (cxx.replace("+", "x"), hashlib.sha1(t["text"].encode()).hexdigest()[:10]))
-                        json.dump({"check": pid, "kind": "program07v", "compiler": cxx, "what": what, "observed": d, "texts": [t], "source": render_c07v([t])}, open(vp, "w"))
-                        violations.append((what, vp))
-                        continue
-                    if len(t["words"]) >= 2 or not t["ok"]:
-                        nontrivial.add(("views", t["text"]))
-                lab("views-program:" + cxx)
-    elif pid == "C03":
+    # C16 gets a second pass over a few of its grammars rendered as full programs (constexpr-constructed parser, constexpr parses): the verbose / non-verbose pair at compile time
+    passes = [lite] + ([False] if pid == "C16" else [])
+    all_cases = cases
+    for pass_no, lite in enumerate(passes):
+      cases = all_cases if pass_no == 0 else all_cases[:{"quick": 3, "thorough": 24}[tier]]
+      if pass_no:
+          VERBOSE_RUNS = False
+      if pid == "C07" or pid in ("C01", "C02", "C05", "C09", "C18", "C10", "C11", "C16"):
+          per_tu = 1
+          groups = [list(range(i, min(i + per_tu, len(cases)))) for i in range(0, len(cases), per_tu)]
+          jobs = []
+          for gi, idxs in enumerate(groups):
+              src = os.path.join(work, "prog_%d.cpp" % gi)
+              open(src, "w").write(render_program(cases, idxs, lite, ctxmix, customlex))
+              for cxx in (("clang++",) if (lite and gi % 2) else ("g++",) if lite else ("g++", "clang++")):
+                  jobs.append((gi, idxs, src, cxx))
+          with ThreadPoolExecutor(max_workers=16) as ex:
+              results = list(ex.map(lambda j: (j, compile_and_run(j[2], j[3])), jobs))
+          for (gi, idxs, src, cxx), res in results:
+              if not res["compiled"]:
+                  if res.get("timeout"):
+                      notes.append("compile of %s with %s hit the time ceiling (inconclusive)" % (os.path.basename(src), cxx))
+                      continue
+                  vp = os.path.join(viol_dir, "%s_compile_%s_%s.json" % (pid, cxx.replace("+", "x"), hashlib.sha1(open(src, "rb").read()).hexdigest()[:10]))
+                  json.dump({"check": pid, "kind": "program", "compiler": cxx, "source": open(src).read(), "what": "generated program does not compile", "log": res["log"], "cases": [cases[i] for i in idxs], "idxs": idxs}, open(vp, "w"))
+                  errs = [l for l in res["log"].splitlines() if "error" in l][:1]
+                  violations.append(("program that parses at compile time does not compile with %s: %s" % (cxx, errs[0][:200] if errs else ""), vp))
+                  continue
+              got = parse_case_lines(res["out"])
+              for gidx in idxs:
+                  case = cases[gidx]
+                  for k, inp in enumerate(case["inputs"]):
+                      evaluations += 1
+                      key = ("g%d" % gidx, k)
+                      want_acc = 1 if inp["accept"] else 0
+                      want_val = inp["value"] if inp["accept"] else "0"
+                      want_msg = inp["messages_hex"]
+                      d = got.get(key)
+                      what = None
+                      # known finding F11: cstring_buffer<N> selects fixed stacks of N + EmptyRulesCount + 1 entries
+                      empty_rules = sum(1 for r in case["grammar"]["rules"] if not r["rhs"])
+                      f11 = "F11" in known_ids and inp.get("max_depth", 0) > len(bytes.fromhex(inp["hex"])) + 1 + empty_rules + 1
+                      if d is None:
+                          what = "program produced no result line (crashed?) rc=%s" % res.get("rc")
+                      elif f11 and d["ce"].split(":")[0] == "-1" and d["cs"].startswith("EXC") and d["r_cs"].startswith("EXC") and all(
+                              d[tag].split(":")[0] == str(want_acc) and (not want_acc or d[tag].split(":")[1] == want_val) and d[tag].split(":")[2] == want_msg for tag in ("sb", "sv", "svs", "sbc", "r_sb", "r_sv")):
+                          excluded["F11"] = excluded.get("F11", 0) + 1
+                          continue
+                      elif lite:
+                          for tag in ("sb", "sv", "svs"):
+                              a, v, m = d[tag].split(":")
+                              if a == "EXC":
+                                  what = "run-time parse (%s) threw: %s (%s)" % (tag, bytes.fromhex(m).decode("utf-8", "replace"), cxx)
+                              elif int(a) != want_acc:
+                                  what = ("a derivable input was rejected" if want_acc else "an underivable input was accepted") + " by a parser written in the DSL (%s, %s)" % (tag, cxx)
+                              elif pid == "C02" and want_acc and v != want_val:
+                                  what = "result differs from the bottom-up evaluation of the derivation tree (%s, %s)" % (tag, cxx)
+                              elif pid == "C05" and want_acc and v != want_val:
+                                  what = "expression grouped against the documented precedence/associativity rules in a parser written in the DSL (%s, %s)" % (tag, cxx)
+                              elif pid == "C09" and m != want_msg:
+                                  what = "error report differs from the reference (%s, %s)" % (tag, cxx)
+                              elif pid == "C16" and tag in ("sb", "sv"):
+                                  what = check_verbose(d, tag, a, v, m, inp, cxx)
+                              elif pid == "C10" and m != want_msg:
+                                  what = "a position in an error message is not the true line/column (%s, %s)" % (tag, cxx)
+                              elif pid == "C10" and d.get("p" + tag) != inp.get("posdigest"):
+                                  what = "a term value handed to a rule functor does not carry the true line/column of its first character (digest over all functor calls; get_sp() and get_line()/get_column(); %s, %s)" % (tag, cxx)
+                              elif pid == "C18" and ((want_acc and v != want_val) or m != want_msg):
+                                  what = "a parser over custom terms with a hand-written longest-match lexer (use_lexer) gives %s than the reference gives for the generated lexer (%s, %s)" % ("another value" if (want_acc and v != want_val) else "other messages", tag, cxx)
+                              if what:
+                                  break
+                      else:
+                          ce = d["ce"].split(":")
+                          if ce[0] != "-1" and "cev" in d and d["cev"] != d["ce"]:
+                              what = "the same compile-time parse with verbose switched on %s (%s)" % ("is not a constant expression" if d["cev"].startswith("-1") else "gives another result", cxx)
+                          elif pid == "C16":
+                              pass           # C16 looks only at the verbose/non-verbose pair here; everything else about these programs is C07's business
+                          elif ce[0] == "-1":
+                              what = "parsing this input during constant evaluation is not a constant expression (%s)" % cxx
+                          elif int(ce[0]) != want_acc or (want_acc and ce[1] != want_val):
+                              what = "compile-time result differs from the reference (%s)" % cxx
+                          else:
+                              for tag in ("cs", "sb", "sv", "svs", "sbc", "r_cs", "r_sb", "r_sv"):
+                                  a, v, m = d[tag].split(":")
+                                  if a == "EXC":
+                                      what = "run-time parse (%s) threw: %s (%s)" % (tag, bytes.fromhex(m).decode("utf-8", "replace"), cxx)
+                                      break
+                                  if int(a) != want_acc or (want_acc and v != want_val):
+                                      what = "run-time result (%s) differs from the compile-time result / reference (%s)" % (tag, cxx)
+                                      break
+                                  if m != want_msg:
+                                      what = "run-time messages (%s) differ from the reference (%s)" % (tag, cxx)
+                                      break
+                      if what:
+                          vp = os.path.join(viol_dir, "%s_%s.json" % (pid, hashlib.sha1((json.dumps(case["grammar"]) + inp["hex"] + cxx).encode()).hexdigest()[:12]))
+                          one = dict(case)
+                          one["inputs"] = [inp]
+                          json.dump({"check": pid, "kind": "program", "lite": lite, "compiler": cxx, "what": what, "observed": d, "cases": [one], "idxs": [0], "source": render_program([one], [0], lite, ctxmix, customlex)}, open(vp, "w"))
+                          violations.append((what, vp))
+                          continue
+                      ntoks = inp.get("tokens", 0)
+                      if (not inp["accept"]) or ntoks >= 5:
+                          nontrivial.add((case["grammar"]["text"], inp["hex"], inp["ws"], inp["nl"]))
+                          lab("kind:" + inp["kind"])
+                      lab("compiler:" + cxx)
+                  if pid == "C11":
+                      evaluations += 1
+                      dline = [ln for ln in res["out"].splitlines() if ln.startswith("DIAG g%d " % gidx)]
+                      what11 = None
+                      if not dline:
+                          what11 = "program printed no diagnostic text (crashed?)"
+                      else:
+                          text = bytes.fromhex(dline[0].split()[2]).decode("latin-1")
+                          what11 = check_diag_text(text, case)
+                      if what11:
+                          vp = os.path.join(viol_dir, "%s_diag_%s.json" % (pid, hashlib.sha1((json.dumps(case["grammar"]) + cxx).encode()).hexdigest()[:12]))
+                          one = dict(case); one["inputs"] = case["inputs"][:1]
+                          json.dump({"check": pid, "kind": "program", "lite": lite, "compiler": cxx, "what": what11 + " (%s)" % cxx, "cases": [one], "idxs": [0], "source": render_program([one], [0], lite, ctxmix, customlex)}, open(vp, "w"))
+                          violations.append((what11 + " (%s)" % cxx, vp))
+                      else:
+                          nontrivial.add(("diag", case["grammar"]["text"], cxx))
+                  lab("class:" + case["class"])
+                  if case.get("spelling"):
+                      lab("spelled-terms")
+                      for sp in case["spelling"]:
+                          lab("term-kind:" + {"c": "char", "s": "string", "r": "regex(named)", "R": "regex(unnamed)", "t": "typed(char)", "T": "typed(named regex)"}[sp["kind"]])
+          for case in cases[:3]:
+              samples.append({"grammar": case["grammar"]["text"], "class": case["class"], "inputs": [i["text"] for i in case["inputs"]][:8]})
+          if pid == "C07":
+              # results that KEEP views into the caller's buffer: the same agreement (constant evaluation / three run-time buffers / two overloads), plus
+              # "the views point into the caller's buffer and read the right text"
+              texts = gen_c07v_texts(seed, {"quick": 24, "thorough": 200}[tier])
+              vsrc = os.path.join(work, "views.cpp")
+              open(vsrc, "w").write(render_c07v(texts))
+              for cxx in ("g++", "clang++"):
+                  res = compile_and_run(vsrc, cxx)
+                  if not res["compiled"]:
+                      if res.get("timeout"):
+                          notes.append("compile of views.cpp with %s hit the time ceiling (inconclusive)" % cxx)
+                          continue
+                      vp = os.path.join(viol_dir, "C07_compile_views_%s.json" % cxx.replace("+", "x"))
+                      json.dump({"check": pid, "kind": "program07v", "compiler": cxx, "source": open(vsrc).read(), "what": "generated program does not compile", "log": res["log"], "texts": texts}, open(vp, "w"))
+                      errs = [l for l in res["log"].splitlines() if "error" in l][:1]
+                      violations.append(("a program whose parse result keeps string_view lexemes of the caller's buffer does not compile with %s: %s" % (cxx, errs[0][:200] if errs else ""), vp))
+                      continue
+                  got = {}
+                  for ln in res["out"].splitlines():
+                      if ln.startswith("VIEW "):
+                          w = ln.split()
+                          got[int(w[1])] = {f.split("=")[0]: int(f.split("=")[1]) for f in w[2:]}
+                  for k, t in enumerate(texts):
+                      evaluations += 1
+                      want = 2 if t["ok"] else 0
+                      d = got.get(k)
+                      what = None
+                      if d is None:
+                          what = "program produced no result line (crashed?) rc=%s" % res.get("rc")
+                      elif d["ce"] == -1:
+                          what = "parsing a static cstring_buffer and reading the lexeme views the result keeps is not a constant expression (%s)" % cxx
+                      else:
+                          for tag, name in (("ce", "constant evaluation"), ("cs", "cstring_buffer"), ("sb", "string_buffer"), ("sv", "string_view_buffer"), ("cs0", "parse(cstring_buffer)"), ("sb0", "parse(string_buffer)")):
+                              if d[tag] != want:
+                                  what = "%s: %s (%s)" % (name, {0: "a text of the language was rejected", 1: "the lexeme views kept by the result do not point into the caller's buffer / read other text", 2: "a text outside the language was accepted", 3: "parse threw"}[d[tag]], cxx)
+                                  break
+                      if what:
+                          vp = os.path.join(viol_dir, "C07_views_%s_%s.json" % (cxx.replace("+", "x"), hashlib.sha1(t["text"].encode()).hexdigest()[:10]))
+                          json.dump({"check": pid, "kind": "program07v", "compiler": cxx, "what": what, "observed": d, "texts": [t], "source": render_c07v([t])}, open(vp, "w"))
+                          violations.append((what, vp))
+                          continue
+                      if len(t["words"]) >= 2 or not t["ok"]:
+                          nontrivial.add(("views", t["text"]))
+                  lab("views-program:" + cxx)
+    cases = all_cases
+    if pid == "C03":
         # regex::expr<P> constructed at compile time: constexpr match("lit") via probe, run-time match through two buffers
         pats = cases
         jobs = []
@@ -1296,6 +1333,14 @@ def run(pid, tier, seed, work, viol_dir, known_ids=()):
                     lab("undeclared-" + m["removed"])
                     lab("compiler:" + cxx)
         samples = [{"grammar": m["grammar"], "removed_from_declaration": "%s %s" % (m["removed"], m["which"])} for m in meta[:5]]
+    if pid == "C07":
+        # the big grammar (state numbers beyond 8 bits): string_view_buffer, string_buffer and cstring_buffer must agree with the python reference and with each other
+        bv, be, bnt, bnotes, blabels = run_big(pid, tier, seed, work, viol_dir)
+        violations += bv; evaluations += be; notes += bnotes
+        for x in bnt:
+            nontrivial.add(x)
+        for kk, vv in blabels.items():
+            labels[kk] = vv
     return (1 if violations else 0), {"evaluations": evaluations, "nontrivial": len(nontrivial), "samples": samples, "labels": labels, "violations": violations, "notes": notes, "wall": time.time() - t0, "programs": len(cases), "excluded_known": excluded}
 
 
@@ -1379,6 +1424,11 @@ def replay(path):
                     if a == "EXC" or int(a) != want_acc or (d["check"] in ("C02", "C05") and want_acc and v != want_val) or (d["check"] in ("C09", "C10") and m != inp["messages_hex"]) or (d["check"] == "C10" and g.get("p" + tag) != inp.get("posdigest")) or (d["check"] == "C18" and ((want_acc and v != want_val) or m != inp["messages_hex"])):
                         bad += 1
                         break
+                continue
+            if g is not None and g["ce"].split(":")[0] != "-1" and "cev" in g and g["cev"] != g["ce"]:
+                bad += 1
+                continue
+            if d["check"] == "C16":
                 continue
             if g is None or g["ce"].split(":")[0] == "-1" or int(g["ce"].split(":")[0]) != want_acc or (want_acc and g["ce"].split(":")[1] != want_val):
                 bad += 1
